@@ -127,7 +127,7 @@ class StopStep(Exception):
     pass
 
 
-def make_job(Lmod, base, name, stop_at_error=True, first_char=None):
+def make_job(Lmod, base, name, stop_at_error=True, first_char=None, fixed_prefix=None):
     ell = z3.Int("ell")
     delta = z3.Int("delta")
 
@@ -138,6 +138,12 @@ def make_job(Lmod, base, name, stop_at_error=True, first_char=None):
             d = iset_of_chars(first_char)
             eng.base_dom[(base.name, 0)] = d
             eng.solver.add(eng.iv_expr((base.name, 0), base.chars[0], d))
+        # the window starts with these characters (each position may list alternatives): only the tail is free
+        for i, alts in enumerate(fixed_prefix or []):
+            if i < base.maxlen:
+                d = iset_of_chars(alts)
+                eng.base_dom[(base.name, i)] = d
+                eng.solver.add(eng.iv_expr((base.name, i), base.chars[i], d))
         return eng
 
     def once():
@@ -419,6 +425,13 @@ def main():
         word = IntervalSet([(ord(ch), ord(ch)) for ch in string.ascii_letters + string.digits + "_$"])
         for n in range(b["window"] + 1, 17):
             jobs.append((make_job(Lmod, SymBase(n, name="c", minlen=n, alphabet=word), f"word/{n}", first_char=string.ascii_letters + "_$"), n))
+        # longer directive lines with a fixed head and a free tail: '#pragma' / '# pragma' + tail, '#line 1' / '# 1' + tail
+        tail = 4 if checklib.tier() == "quick" else 6
+        heads = {"pragma": ["#", " \t", "p", "r", "a", "g", "m", "a"], "pragma0": ["#", "p", "r", "a", "g", "m", "a"],
+                 "line": ["#", "l", "i", "n", "e", " \t", "12"], "marker": ["#", " \t", "12", " \t", '"', "x", '"']}
+        for hname, head in heads.items():
+            n = len(head) + tail
+            jobs.append((make_job(Lmod, SymBase(n, name="c", minlen=len(head), alphabet=red), f"directive-tail/{hname}+{tail}", fixed_prefix=head), n))
         # progress after errors on directive lines (steps are not cut at the first error here)
         for n in range(2, min(7, b["directive"]) + 1):
             jobs.append((make_job(Lmod, SymBase(n, name="c", minlen=n, alphabet=red), f"directive-errors/{n}", stop_at_error=False, first_char="#"), n))
